@@ -79,6 +79,8 @@ structure Cfg where
   strict : Bool     -- truthiness of plugin_transport_args.auth_strict_key
   found : Bool      -- lookup(host) is non-empty
   equal : Bool      -- … and its public_key == the key the server presents
+  importable : Bool -- … and `asyncssh.import_public_key(key_type + " " + public_key)` can load it (a known_hosts
+                    --   line may hold a truncated / garbage / mislabelled blob: "unusable key")
   hasKey : Bool     -- auth_private_key != ""
   keyLoads : Bool   -- the private key file can be loaded (paramiko: RSAKey(filename=…) does not raise)
   hasPw : Bool      -- auth_password != ""
@@ -117,18 +119,24 @@ def authenticate (lib : Lib) (c : Cfg) (s : St) : St :=
     first; then key exchange; with trusted keys given, a server key outside them ends the connection
     with HostKeyNotVerifiable BEFORE any authentication request; then publickey (if client keys), then
     password (sent even when empty); PermissionDenied when all are refused. -/
-def asyncsshConnect (pinned : Bool) (c : Cfg) (s : St) : St :=
-  -- repaired code only: `_known_host_keys()` looks the host up again and loads the key for asyncssh
-  let s := if pinned then s.emit [Ev.lookup c.found (c.found && c.equal)] else s
-  if pinned && !c.found then s.raise [] Exc.authenticationFailed
-  else if c.hasKey && !c.keyLoads then s.raise [] Exc.library            -- KeyImportError / FileNotFoundError
+def asyncsshConnect (pin fallback : Bool) (c : Cfg) (s : St) : St :=
+  -- repaired code only (asyncssh/transport.py `_known_host_keys`): look the host up again and load the
+  -- key for asyncssh; KeyError (nothing found) / KeyImportError (unusable key) raise
+  -- ScrapliAuthenticationFailed — unless the method has a non-raising path (`fallback`), in which case
+  -- connect() gets `known_hosts=None` as in the unrepaired code
+  let s := if pin then s.emit [Ev.lookup c.found (c.found && c.equal)] else s
+  let usable := c.found && c.importable
+  if pin && !usable && !fallback then s.raise [] Exc.authenticationFailed
+  else
+  let pinned := pin && usable
+  if c.hasKey && !c.keyLoads then s.raise [] Exc.library            -- KeyImportError / FileNotFoundError
   else if !c.kexOK then s.raise [Ev.kex] Exc.library
   else if pinned && !c.equal then s.raise [Ev.kex, Ev.verifyFail] Exc.authenticationFailed   -- HostKeyNotVerifiable
   else
     let offers : List Ev := if c.hasKey then [Ev.offerKey] else []
     if c.hasKey && c.accKey then s.emit (Ev.kex :: offers)
     else if c.accPw then s.emit (Ev.kex :: offers ++ [Ev.offerPassword])
-    else s.raise (Ev.kex :: offers ++ [Ev.offerPassword]) Exc.authenticationFailed       -- 199-202
+    else s.raise (Ev.kex :: offers ++ [Ev.offerPassword]) Exc.authenticationFailed       -- PermissionDenied
 
 /-- what one call of `open()` does -/
 def stepCall (lib : Lib) (c : Cfg) (s : St) : Call → St
@@ -145,7 +153,7 @@ def stepCall (lib : Lib) (c : Cfg) (s : St) : Call → St
     if !c.found then s.raise [Ev.lookup false false] Exc.library
     else if !c.equal then s.raise [Ev.lookup true false, Ev.verifyFail] Exc.authenticationFailed
     else s.emit [Ev.lookup true true, Ev.verifyOK]
-  | .connect pin => asyncsshConnect (pin && c.strict) c s
+  | .connect pin fb => asyncsshConnect (pin && c.strict) fb c s
   | .authenticate => authenticate lib c s
   | .openChannel => s.emit [Ev.openSession]
 
@@ -173,11 +181,14 @@ def paramikoOrder : List (Call × Bool) :=
 def ssh2Order : List (Call × Bool) :=
   [(.handshake, false), (.verifyKey, true), (.authenticate, false), (.openChannel, false)]
 /-- asyncssh 152-157 `if strict: _verify_key()` (presence) · 194-198 connect · 211-216 `if strict:
-    _verify_key_value()` · 218 open_session; `pin` = strict mode hands the expected key to connect -/
-def asyncsshOrder (pin : Bool) : List (Call × Bool) :=
-  [(.verifyPresent, true), (.connect pin, false), (.verifyValue, true), (.openChannel, false)]
+    _verify_key_value()` · 218 open_session; `pin` = strict mode hands the expected key to connect;
+    `fallback` = … unless it cannot load it (line numbers of the unrepaired file) -/
+def asyncsshOrder (pin fallback : Bool) : List (Call × Bool) :=
+  [(.verifyPresent, true), (.connect pin fallback, false), (.verifyValue, true), (.openChannel, false)]
 
-def pinOf (calls : List (Call × Bool)) : Bool := calls.any (fun p => p.1 == Call.connect true)
+/-- strict mode pins the expected key and has no way around it -/
+def pinOf (calls : List (Call × Bool)) : Bool := calls.any (fun p => p.1 == Call.connect true false)
+def fallbackOf (calls : List (Call × Bool)) : Bool := calls.any (fun p => p.1 == Call.connect true true)
 
 /-! ## the property on a trace -/
 
@@ -191,7 +202,8 @@ def noOffers (t : List Ev) : Bool := t.all (fun e => !isOffer e)
 def protectedTrace (t : List Ev) : Bool :=
   noOffers t && t.getLast? == some (Ev.raise Exc.authenticationFailed)
 
-/-- configuration obtained from a concrete known_hosts content -/
+/-- configuration obtained from a concrete known_hosts content; `imp keyType key` = can asyncssh load
+    that key (a PARAMETER, like `hmac`) -/
 structure Env where
   strict : Bool
   hasKey : Bool
@@ -203,9 +215,11 @@ structure Env where
   accPw : Bool
 deriving DecidableEq, Repr
 
-def cfgOf (hmac : String → String → String) (es : List Entry) (host serverKey : String) (e : Env) : Cfg :=
+def cfgOf (hmac : String → String → String) (imp : String → String → Bool) (es : List Entry)
+    (host serverKey : String) (e : Env) : Cfg :=
   let r := lookup hmac (parse es) host
   { strict := e.strict, found := r.isSome, equal := (r.map (·.2)) == some serverKey,
+    importable := (r.map (fun v => imp v.1 v.2)).getD false,
     hasKey := e.hasKey, keyLoads := e.keyLoads, hasPw := e.hasPw, hasUser := e.hasUser,
     kexOK := e.kexOK, accKey := e.accKey, accPw := e.accPw }
 
